@@ -58,7 +58,7 @@ PROPS = {
     },
     "C12": {
         
-        "lean_props": ["ZarrsModel.Props.C12", "ZarrsModel.Props.C12Fixed"],
+        "lean_props": ["ZarrsModel.Props.C12", "ZarrsModel.Props.C12Fixed", "ZarrsModel.Props.C12Deflate"],
         "harness": "c12",
         "driver_gen_also": True,
         "rule": "direction w (zarrs writes, the specification-level reader reads): V3 arrays of rank 0..3 with ragged edges, 4 data types, non-zero fill values, default/v2 key encodings with either separator, "
@@ -75,7 +75,7 @@ PROPS = {
     },
     "C13": {
         
-        "lean_props": ["ZarrsModel.Props.C13", "ZarrsModel.Props.C13V2", "ZarrsModel.Props.C13V2Conv"],
+        "lean_props": ["ZarrsModel.Props.C13", "ZarrsModel.Props.C13V2", "ZarrsModel.Props.C13V2Conv", "ZarrsModel.Props.C13Opts"],
         "harness": "c13",
         "rule": "MetadataV3 texts (24 fixed forms incl. sequence form, null/ill-typed members, unknown keys + random); structured ArrayMetadataV3 documents: ranks 0..3, 7 data types with matching fill "
                 "values, string/object/empty-configuration name forms, all chunk key encodings, transpose/bytes/gzip/crc32c/zstd codec lists with unknown skippable codecs, attributes (nested, unicode, "
